@@ -174,6 +174,10 @@ int cp_ecss_ver(bn_t e, bn_t s, const uint8_t *msg, size_t len, const ec_t q) {
 				if (ev->used != e->used) {
 					result = 0;
 				}
+
+				if (ec_is_infty(p)) {
+					result = 0;
+				}
 			}
 		}
 	}
